@@ -215,6 +215,8 @@ pub fn drain_bg_threads() {
 
 pub struct Dirs {
     pub root: PathBuf,
+    /// keep the directory when dropped (crash experiments run over several processes)
+    pub keep: bool,
 }
 
 static DIR_COUNTER: AtomicU64 = AtomicU64::new(0);
@@ -231,7 +233,12 @@ impl Dirs {
         ));
         let _ = std::fs::remove_dir_all(&root);
         std::fs::create_dir_all(&root).unwrap();
-        Dirs { root }
+        Dirs { root, keep: false }
+    }
+    /// Use an existing directory (created if missing) and leave it in place afterwards.
+    pub fn at(root: PathBuf) -> Dirs {
+        std::fs::create_dir_all(&root).unwrap();
+        Dirs { root, keep: true }
     }
     pub fn storage(&self, k: usize) -> PathBuf {
         self.root.join(format!("st{}", k))
@@ -246,7 +253,9 @@ impl Dirs {
 
 impl Drop for Dirs {
     fn drop(&mut self) {
-        let _ = std::fs::remove_dir_all(&self.root);
+        if !self.keep {
+            let _ = std::fs::remove_dir_all(&self.root);
+        }
     }
 }
 
@@ -535,6 +544,13 @@ impl Runner {
         install_lock_hooks();
         let dirs = Dirs::new();
         Runner { dirs, pj_hist: vec![], sj_hist: vec![], pj_ok: vec![], sj_ok: vec![], last_obs: None, inited: false }
+    }
+
+    /// A runner over a persistent directory (crash experiments).
+    pub fn at(root: PathBuf) -> Runner {
+        hooks::reset_config();
+        install_lock_hooks();
+        Runner { dirs: Dirs::at(root), pj_hist: vec![], sj_hist: vec![], pj_ok: vec![], sj_ok: vec![], last_obs: None, inited: false }
     }
 
     pub fn storage(&self) -> PathBuf {
